@@ -22,18 +22,19 @@ EXEMPT = {
 
 
 class St3:
-    __slots__ = ('nz', 'rel', 'ints')
+    __slots__ = ('nz', 'rel', 'ints', 'back')
 
-    def __init__(self, nz=None, rel=None, ints=None):
+    def __init__(self, nz=None, rel=None, ints=None, back=None):
         self.nz = nz or {}
         self.rel = rel or {}
         self.ints = ints or {}
+        self.back = back or {}     # bytes of the same string known to lie behind the cursor
 
     def copy(self):
-        return St3(dict(self.nz), dict(self.rel), dict(self.ints))
+        return St3(dict(self.nz), dict(self.rel), dict(self.ints), dict(self.back))
 
     def __eq__(self, o):
-        return self.nz == o.nz and self.rel == o.rel and self.ints == o.ints
+        return self.nz == o.nz and self.rel == o.rel and self.ints == o.ints and self.back == o.back
 
     def __ne__(self, o):
         return not self.__eq__(o)
@@ -43,7 +44,8 @@ def join3(a, b):
     nz = {k: min(a.nz[k], b.nz[k]) for k in set(a.nz) & set(b.nz)}
     rel = {k: min(a.rel[k], b.rel[k]) for k in set(a.rel) & set(b.rel)}
     ints = {k: a.ints[k] for k in set(a.ints) & set(b.ints) if a.ints[k] == b.ints[k]}
-    return St3(nz, rel, ints)
+    back = {k: min(a.back[k], b.back[k], 64) for k in set(a.back) & set(b.back)}
+    return St3(nz, rel, ints, back)
 
 
 class Analyzer3:
@@ -106,6 +108,13 @@ class Analyzer3:
         if not record:
             return
         nz = st.nz.get(key, NEG)
+        if isinstance(idx, int) and idx + c < 0:
+            k = -(idx + c)
+            bk = st.back.get(key, 0)
+            ok = k <= bk
+            self.site('BND3', node, 'read %s looks %d byte(s) behind the cursor' % (expr_str(node)[:40], k), ok,
+                      'the cursor was advanced by at least %d byte(s) inside this string' % bk, 'readback:%s[-%d]' % (key, k))
+            return
         if isinstance(idx, int):
             k = idx + c
             ok = 0 <= k <= nz
@@ -135,6 +144,16 @@ class Analyzer3:
                 self.site('BND3', node, 'advance of %s by %d stays inside the string' % (key, c), ok,
                           'proved %s non-terminator byte(s) at the cursor' % (nz if nz > NEG else 'no'),
                           'adv:%s:%d' % (key, c))
+        if c > 0 and nz >= c:
+            st.back[key] = min(st.back.get(key, 0) + c, 64)
+        elif c < 0:
+            if record and key in self.tracked:
+                bk = st.back.get(key, 0)
+                self.site('BND3', node, 'step back of %s by %d stays inside the string' % (key, -c), -c <= bk,
+                          'the cursor was advanced by at least %d byte(s) before' % bk, 'back:%s:%d' % (key, -c))
+            st.back[key] = max(st.back.get(key, 0) + c, 0)
+        else:
+            st.back.pop(key, None)
         if c > 0 and nz >= c:
             st.nz[key] = nz - c
         elif c > 0 and nz > NEG:
@@ -183,6 +202,7 @@ class Analyzer3:
 
     def assign(self, st, name, rhs):
         st.nz.pop(name, None)
+        st.back.pop(name, None)
         for k in [k for k in st.rel if k[0] == name]:
             del st.rel[k]
         pn = self.norm(rhs)
@@ -209,6 +229,7 @@ class Analyzer3:
         if key:
             if op == '=':
                 st.nz.pop(key, None)
+                st.back.pop(key, None)
                 for k in [k for k in st.rel if k[0] == key]:
                     del st.rel[k]
                 pn = self.norm(a['r'])
@@ -268,6 +289,7 @@ class Analyzer3:
                         st.nz[key] = 0
                     else:
                         st.nz.pop(key, None)
+                    st.back.pop(key, None)
                     for k in [k for k in st.rel if k[0] == key]:
                         del st.rel[k]
                 continue
